@@ -964,6 +964,12 @@ func (s *Stage) finalize(file *finalFile) {
 		s.logDebug("Ignoring invalid (final):", file.name, existingState)
 		return
 	}
+	if s.fromCache(file.path) != file {
+		// The record of an older version that was parked before a newer one was
+		// validated: the newer one has its own place in the chain
+		s.logDebug("Ignoring stale (final):", file.name)
+		return
+	}
 
 	if file.wait != nil {
 		file.wait.Stop()
@@ -1153,8 +1159,17 @@ func (s *Stage) toWait(prevPath string, next *finalFile, howLong time.Duration) 
 	}
 	files, ok := s.wait[prevPath]
 	if ok {
-		for _, waiting := range files {
+		for i, waiting := range files {
 			if waiting.path == next.path {
+				if waiting != next {
+					// A newer version of the file takes the place of the one
+					// parked before: its record is the one to deliver
+					if waiting.wait != nil {
+						waiting.wait.Stop()
+						waiting.wait = nil
+					}
+					files[i] = next
+				}
 				return
 			}
 		}
